@@ -132,6 +132,8 @@ structure Param where
   dae0If : Nat := 0
   usePeer : Bool := false
   peerMac : Bytes := zeros 6
+  /-- `dae_netns_id` -/
+  netns : Nat := 0
 deriving DecidableEq, Repr
 
 /-- one ring-buffer event: type, pid, outbound, l4proto -/
@@ -159,6 +161,17 @@ structure World where
   now : Nat := 1000000000
 deriving Repr
 
+/-- a socket as the lookup helpers see it -/
+structure SockEntry where
+  /-- `IPPROTO_TCP` / `IPPROTO_UDP`: which helper finds it -/
+  proto : Nat
+  mark : Nat
+  state : Nat
+  netns : Nat
+  /-- the `struct bpf_sock_tuple` image it is found under -/
+  tuple : Bytes
+deriving DecidableEq, Repr
+
 /-- an skb as the programs see it -/
 structure Skb where
   raw : Raw
@@ -166,8 +179,10 @@ structure Skb where
   ifindex : Nat
   mark : Nat
   cookie : Nat
-  /-- what `bpf_skc_lookup_tcp` / `bpf_sk_lookup_udp` return for the frame's tuple: `(mark, state)` -/
-  sk : Option (Nat × Nat)
+  /-- the one socket of the host's socket table that matters for this frame (`none`: no socket):
+  `bpf_skc_lookup_tcp` / `bpf_sk_lookup_udp` return it exactly when they are asked for ITS protocol,
+  lookup tuple (`struct bpf_sock_tuple` bytes: 12 for IPv4, 36 for IPv6) and netns -/
+  sk : Option SockEntry
 deriving Repr
 
 /-- verdict and the observable effects on the skb -/
@@ -399,18 +414,36 @@ def lanVerdict (w : World) (s : Skb) (l2 : Bool) (p : Pkt) (ob mark must dscp : 
   else if !wanAlive w s.raw.proto ob p.l4proto p.tuples.five.dport then (w, outShot s)
   else redirectLan w s l2 p ob mark must dscp
 
+def beN (n v : Nat) : Bytes := (List.range n).map fun i => v / 2 ^ (8 * (n - 1 - i)) % 256
+
+/-- the `struct bpf_sock_tuple` the LAN hook fills: by `pkt->ethh.h_proto` either
+`ipv4.{saddr,daddr,sport,dport}` (the low 32 bits of the tuple's addresses; 12 bytes) or
+`ipv6.{saddr,daddr,sport,dport}` (36 bytes), everything in network order -/
+def lookupTuple (p : Pkt) : Bytes :=
+  if p.ethProto = ETH_P_IP then
+    beN 4 (p.tuples.five.sip % 2 ^ 32) ++ beN 4 (p.tuples.five.dip % 2 ^ 32) ++
+      beN 2 p.tuples.five.sport ++ beN 2 p.tuples.five.dport
+  else
+    beN 16 p.tuples.five.sip ++ beN 16 p.tuples.five.dip ++ beN 2 p.tuples.five.sport ++ beN 2 p.tuples.five.dport
+
+/-- `bpf_skc_lookup_tcp` / `bpf_sk_lookup_udp` `(skb, &tuple, tuple_size, PARAM.dae_netns_id, 0)` -/
+def skLookup (w : World) (s : Skb) (p : Pkt) (proto : Nat) : Option SockEntry :=
+  match s.sk with
+  | some e => if e.proto = proto ∧ e.tuple = lookupTuple p ∧ e.netns = w.param.netns then some e else none
+  | none => none
+
 /-- socket lookup before routing: `true` = a local (non-dae) socket owns the tuple ⇒ pass -/
 def lanLocalSocket (w : World) (s : Skb) (p : Pkt) : Bool :=
   let notDae (mk : Nat) : Bool := !(w.param.sockMark != 0 && mk == w.param.sockMark)
   if p.l4proto = IPPROTO_TCP then
     if !(p.syn && !p.ack) then
-      match s.sk with
-      | some (mk, st) => notDae mk && st == BPF_TCP_LISTEN
+      match skLookup w s p IPPROTO_TCP with
+      | some e => notDae e.mark && e.state == BPF_TCP_LISTEN
       | none => false
     else false
   else if p.l4proto = IPPROTO_UDP then
-    match s.sk with
-    | some (mk, _) => notDae mk
+    match skLookup w s p IPPROTO_UDP with
+    | some e => notDae e.mark
     | none => false
   else false
 
